@@ -12,6 +12,7 @@ git -C /repo worktree add -q --detach "$wt" HEAD || exit 3
 if ! git -C "$wt" apply "$patch"; then echo "PATCH DOES NOT APPLY"; git -C /repo worktree remove --force "$wt"; exit 3; fi
 cd /verif
 for p in "$@"; do
+  echo "VERIF_REPO=<worktree of /repo HEAD + patch> ./check $p --tier ${TIER:-quick} ${CHECK_ARGS:-}" > /tmp/mutres/$tag/$p.cmd
   VERIF_REPO=$wt VERIF_EVIDENCE_DIR=/tmp/mutres/$tag ./check $p --tier ${TIER:-quick} ${CHECK_ARGS:-} > /tmp/mutres/$tag/$p.log 2>&1
   echo "$tag $p exit=$? $(grep -E '^(VIOLATION|INCONCLUSIVE|OK|KNOWN)' /tmp/mutres/$tag/$p.log | head -3 | tr '\n' ' ')"
 done
